@@ -498,7 +498,7 @@ def suite_random(ctx: Ctx) -> SuiteResult:
                            "advances between the adjustor's reads, late wake-up), wild (clock paused / "
                            "rescaled during the sleep or on entry); non-trivial = at least one sleeping "
                            "and one non-sleeping adjust; distinct by (parameters, trace)")
-    n = ctx.n(1500, 30000)
+    n = ctx.n(2500, 30000)
     for _ in range(n):
         case = gen_case(ctx.rng)
         vs, d, tr = run_case(case, ctx.driver)
